@@ -82,6 +82,7 @@ func (k c03) Run(c *rt.Ctx) {
 	r := c.R
 	st := gen.NewStore(r, c03Families[r.Intn(len(c03Families))])
 	g := fullGenFor(c, st, r)
+	g.RawListHead = true
 	if r.Chance(1, 3) {
 		g.RefBias = 3
 	}
